@@ -11,6 +11,7 @@ TEXT_SIGMA = ["'", '"', '\\', '\0', '\t', '\n', '\r', '\x1b', '\x7f', ' ', 'a', 
               '\U0010ffff', '͸', '\U0003134b', '\x01', '\x1f', '~', '\x85', '\xff', '؜', ' ', '᠎', ' ', ' ',
               ' ', '⁠', '퟿', '', '￹', '\U000f0000', '\U00100000', '\U0001d7ff', '{', '}', '0', 'x', 'N', 'u', 'U',
               '\x0b', '\x0c', '\x08', '\x07', 'µ', '☃', '\U0002ffff']
+QUOTE_CORE = ["'", '"', '\\', 'a', 'é', '\n']
 BYTE_SIGMA = [0x27, 0x22, 0x5c, 0x00, 0x09, 0x0a, 0x0d, 0x20, 0x61, 0x7f, 0x80, 0xff]
 DELTA_FILE = os.path.join(C.ROOT, 'vp', 'data', 'c16_delta.json')
 
@@ -32,6 +33,10 @@ def text_cases(tier):
             continue
         for t in itertools.product(TEXT_SIGMA, repeat=l):
             yield 'len%d' % l, ''.join(t)
+    # quote choice depends on the counts of both quote kinds: every string of length 3..6 over a 6-symbol core
+    for l in range(3, 7 if tier == 'quick' else 8):
+        for t in itertools.product(QUOTE_CORE, repeat=l):
+            yield 'quote-core len%d' % l, ''.join(t)
 
 
 def bytes_cases(tier):
@@ -137,10 +142,10 @@ def run(tier, seed):
     for r in C.pmap(run_chunk, jobs):
         total.merge(r)
     total.extra['delta_set_size'] = len(load_delta())
-    rule = ('text: every Unicode scalar value as a 1-char string + every string of length<=%d over a %d-point class alphabet; bytes: every '
+    rule = ('text: every Unicode scalar value as a 1-char string + every string of length<=%d over a %d-point class alphabet + every string of length 3..%d over {\', ", backslash, a, é, LF} (quote choice); bytes: every '
             'byte string of length<=2 + every string of length<=%d over a 12-byte alphabet; each through UnicodeEscape/AsciiEscape::new_repr, '
             'the result fed to CPython ast.literal_eval and to the real Constant::parse; non-trivial = the value needs at least one escape '
-            '(changed()); distinct = distinct value' % (2 if tier == 'quick' else 3, len(TEXT_SIGMA), 3 if tier == 'quick' else 4))
+            '(changed()); distinct = distinct value' % (2 if tier == 'quick' else 3, len(TEXT_SIGMA), 6 if tier == 'quick' else 7, 3 if tier == 'quick' else 4))
     return C.finish(PROP, tier, seed, t0, total, rule,
                     ['CPython 3.11 repr/ast.literal_eval define the reference',
                      'frozen version-delta set D (vp/data/c16_delta.json): code points whose printable status differs between the crate\'s '
